@@ -290,11 +290,11 @@ def _replay_c14(ctx, vh):
 MSG_VARIANTS = [
     dict(ascii=["bad value A", "bad value B", "bad value C", "bad value D"],
          cjk=["甲处错误", "乙处错误", "丙处错误", "丁处错误"],
-         mixed=["A项错误x1", "B项错误x2", "C项错误x3", "D项错误x4"],
+         mixed=["“A”项错误x1", "“B”项错误x2", "“C”项错误x3", "“D”项错误x4"],
          latin=["Größe fehlt A", "Größe fehlt B", "Größe fehlt C", "Größe fehlt D"]),
     dict(ascii=["must be ok (A)", "must be ok (B)", "must be ok (C)", "must be ok (D)"],
          cjk=["请输入正确的值甲", "请输入正确的值乙", "请输入正确的值丙", "请输入正确的值丁"],
-         mixed=["A值不合法!", "B值不合法!", "C值不合法!", "D值不合法!"],
+         mixed=["ß→A值不合法!", "é→B值不合法!", "かC值不合法!", "ЖD值不合法!"],
          latin=["valeur ≤ 5 attendue (A) ✓", "valeur ≤ 5 attendue (B) ✓", "valeur ≤ 5 attendue (C) ✓", "valeur ≤ 5 attendue (D) ✓"]),
     dict(ascii=["nA", "nB", "nC", "nD"],
          cjk=["甲错", "乙错", "丙错", "丁错"],
